@@ -11,3 +11,4 @@ pub mod sched;
 pub mod sim;
 pub mod simrun;
 pub mod memeeprom;
+pub mod detlock;
